@@ -1084,7 +1084,12 @@ def simplify_variable(
     return var
   new_var = ctx.program.NewVariable()
   for bindings in bindings_by_hash.values():
-    new_var.AddBinding(bindings[0].data, bindings, node)
+    # The merged binding holds whenever ANY of the original bindings holds, so
+    # each of them is a source set of its own. (A single source set containing
+    # several bindings of the same variable is a conjunction that can never be
+    # satisfied and would make the merged binding invisible.)
+    for b in bindings:
+      new_var.AddBinding(bindings[0].data, [b], node)
   return new_var
 
 
